@@ -391,7 +391,7 @@ def memcheck(ctx, seconds=300):
     t_end = time.time() + seconds
     k = 0
     while time.time() < t_end and not ctx.out_of_time():
-        rng = ctx.rng(ctx.shard, "memcheck", k)
+        rng = ctx.rng(ctx.shard * 100000 + k, "memcheck")
         k += 1
         w = draw_files(rng)
         argv, model = C.gen_argv(rng, w["roots"], max_groups=3, validity=rng.random() < 0.9, with_help=False)
